@@ -873,7 +873,25 @@ impl<'a> GeneratorState<'a> {
                     }
                 }
             },
-            Expr::FunctionCall(expr, params) => self.generate_function_call(expr, params, pos),
+            Expr::FunctionCall(expr, params) => {
+                if high_byte {
+                    // The function has been called for the low byte already, and it returns a char:
+                    // don't call it a second time for the high byte of a 16-bit context
+                    if let Expr::Identifier(var, _) = expr.as_ref() {
+                        if let Some(f) = self.compiler_state.functions.get(var) {
+                            if f.return_type.is_some() && f.return_signed {
+                                return Err(self.compiler_state.syntax_error(
+                                    "Signed function result used in a 16-bit context. Assign it to a signed char first",
+                                    pos,
+                                ));
+                            }
+                        }
+                    }
+                    Ok(ExprType::Immediate(0))
+                } else {
+                    self.generate_function_call(expr, params, pos)
+                }
+            }
             Expr::MinusMinus(expr, false) => {
                 let expr_type = self.generate_expr(expr, pos, high_byte, high_byte)?;
                 if !second_time {
